@@ -196,6 +196,9 @@ func (s *SymBandDense) Zero() {
 // DiagView returns the diagonal as a matrix backed by the original data.
 func (s *SymBandDense) DiagView() Diagonal {
 	n := s.mat.N
+	if n == 0 {
+		return &DiagDense{}
+	}
 	return &DiagDense{
 		mat: blas64.Vector{
 			N:    n,
